@@ -288,6 +288,11 @@ bool cmb_resourceguard_cancel(struct cmb_resourceguard *rgp,
                                  (void *)CMB_PROCESS_CANCELLED,
                                  time, priority);
         ret = true;
+
+        /* The front of the queue may have changed, evaluate the new one */
+        if (!rgp->evaluate_all) {
+            (void)cmb_resourceguard_signal(rgp);
+        }
     }
 
     return ret;
@@ -309,6 +314,11 @@ bool cmb_resourceguard_remove(struct cmb_resourceguard *rgp,
     if (cmi_hashheap_is_enqueued(hp, key)) {
         (void)cmi_hashheap_cancel(hp, key);
         ret = true;
+
+        /* The front of the queue may have changed, evaluate the new one */
+        if (!rgp->evaluate_all) {
+            (void)cmb_resourceguard_signal(rgp);
+        }
     }
 
     return ret;
